@@ -13,6 +13,10 @@ RULE = ("M: every multiset of <=MaxBars bars with even endpoints in 0..MaxT (int
         "distinct = canonical (sorted bars, degree, embedding).")
 
 
+# (bars sit on even ticks, so that the critical points are whole ticks: above 2^24 resp. 2048 the containers hold even integers only)
+FLOAT_EMBS = [Emb(1, 2 ** 24, True, "k + 2^24 (float32 container)"), Emb(1, 2048, True, "k + 2048 (float16 container)")]
+
+
 def _mk_job(bars, emb, rng, extra_degrees=True, trailing_inf=False):
     """bars in ticks -> float job + case skeleton."""
     order = list(bars)
@@ -176,13 +180,18 @@ def run(ctx):
         bars = gen_random_bars(ctx.rng, 7 if i % 3 else 12, 24 if i % 2 else 40)
         e = allembs[i % len(allembs)]
         j, s = _mk_job(bars, e, ctx.rng, extra_degrees=True, trailing_inf=(i % 7 == 0))
+        if i % 25 == 24:
+            # single / half precision containers at an offset where the integers are representable in them but the half sums are not
+            e = FLOAT_EMBS[(i // 25) % 2]
+            j, s = _mk_job(bars, e, ctx.rng, extra_degrees=True, trailing_inf=(i % 7 == 0))
+            j["dtype"] = ["float32", "float16"][(i // 25) % 2]
         jobs.append(j); skels.append(s); embs.append(e)
     _validate(ctx, jobs, skels, embs, "V")
 
 
 def replay(ctx, rec):
     case = rec["case"]
-    emb = next(e for e in EXACT_EMBS + DEC_EMBS if e.name == case["emb"])
+    emb = next(e for e in EXACT_EMBS + DEC_EMBS + FLOAT_EMBS if e.name == case["emb"])
     job = case["job"]
     sk = {"dgms": case["case"]["dgms"], "hom_deg": case["case"]["hom_deg"]}
     _validate(ctx, [job], [sk], [emb], "replay", nproc=1)
